@@ -3,6 +3,7 @@ package props
 import (
 	"fmt"
 	"math/rand"
+	"os"
 	"sort"
 	"strings"
 	"sync"
@@ -61,8 +62,137 @@ func c34Rank(s serf.SerfState) int {
 	return -1
 }
 
+// c34Tight: lifecycle calls released at the same instant by a spin barrier with sub-microsecond
+// skew, on a fresh node per trial, in real time and in a build without the race detector (whose
+// scheduling hides these windows): several Shutdown calls at once, or Leave against Shutdown,
+// with pollers reading State() all the time.
+func c34Tight(rng *rand.Rand, seq int) (viols [][2]string, stats map[string]int) {
+	stats = map[string]int{}
+	nw := simnet.New(int64(seq))
+	for trial := 0; trial < 400; trial++ {
+		nd, err := cluster.Start(nw, cluster.Opts{Name: fmt.Sprintf("t%d-%d", seq, trial), IP: fmt.Sprintf("10.34.%d.%d", seq%200, trial%250+1), Profile: "passive",
+			Mutate: func(c *serf.Config) { c.BroadcastTimeout, c.LeavePropagateDelay = 2*time.Millisecond, time.Millisecond }})
+		if err != nil {
+			return append(viols, [2]string{"setup", err.Error()}), stats
+		}
+		kind := []string{"shutdown-x4", "leave-vs-shutdown", "leave-vs-shutdown"}[rng.Intn(3)]
+		var calls []string
+		switch kind {
+		case "shutdown-x4":
+			calls = []string{"shutdown", "shutdown", "shutdown", "shutdown"}
+		default:
+			calls = []string{"leave", "shutdown"}
+		}
+		var start, stop atomic.Bool
+		var backwards atomic.Value
+		pg := newBGroup()
+		for w := 0; w < 2; w++ {
+			pg.Go(func() {
+				best := -1
+				for !stop.Load() {
+					st := nd.S.State()
+					if rk := c34Rank(st); rk < best {
+						backwards.CompareAndSwap(nil, fmt.Sprintf("State() returned %v after a poller had seen rank %d", st, best))
+					} else {
+						best = rk
+					}
+				}
+			})
+		}
+		type outcome struct {
+			kind, err, panicked string
+		}
+		outs := make([]outcome, len(calls))
+		g := newBGroup()
+		for i, c := range calls {
+			i, c := i, c
+			spin := rng.Intn(400)
+			g.Go(func() {
+				defer func() {
+					if p := recover(); p != nil {
+						outs[i].panicked = fmt.Sprint(p)
+					}
+				}()
+				outs[i].kind = c
+				for !start.Load() {
+				}
+				for k := 0; k < spin; k++ {
+					_ = start.Load()
+				}
+				var err error
+				if c == "leave" {
+					err = nd.S.Leave()
+				} else {
+					err = nd.S.Shutdown()
+				}
+				if err != nil {
+					outs[i].err = err.Error()
+				}
+			})
+		}
+		start.Store(true)
+		g.Wait()
+		final := nd.S.State()
+		stop.Store(true)
+		pg.Wait()
+		stats["tight_trials_"+kind]++
+		for _, o := range outs {
+			switch {
+			case o.panicked != "" && o.kind == "leave" && strings.Contains(o.panicked, "leave after shutdown"):
+				viols = append(viols, [2]string{"panic-leave-after-shutdown/shutdown-during-leave", fmt.Sprintf("%s: Leave panicked: %s", kind, o.panicked)})
+			case o.panicked != "":
+				viols = append(viols, [2]string{"panic/" + o.kind + "/simultaneous", fmt.Sprintf("%s released at the same instant: %s panicked: %s", kind, o.kind, o.panicked)})
+			case o.kind == "shutdown" && o.err != "":
+				viols = append(viols, [2]string{"shutdown-failed/simultaneous", fmt.Sprintf("%s released at the same instant: Shutdown returned %q", kind, o.err)})
+			}
+		}
+		if final != serf.SerfShutdown {
+			viols = append(viols, [2]string{"not-shutdown-after-shutdown/simultaneous", fmt.Sprintf("%s released at the same instant: every call has returned (Shutdown among them) and State() is %v", kind, final)})
+		}
+		if b := backwards.Load(); b != nil {
+			viols = append(viols, [2]string{"state-went-backwards/simultaneous", fmt.Sprintf("%s released at the same instant: %s", kind, b)})
+		}
+		func() {
+			// (Close = one more Shutdown: it must be a no-op by now)
+			defer func() {
+				if p := recover(); p != nil {
+					viols = append(viols, [2]string{"panic/shutdown/repeated", fmt.Sprintf("%s released at the same instant, all calls returned with State() %v: a further Shutdown panicked: %v", kind, final, p)})
+				}
+			}()
+			nd.Close()
+		}()
+		if len(viols) > 0 {
+			// a listed known finding does not end the campaign, anything else does
+			only := true
+			for _, v := range viols {
+				if v[0] != "panic-leave-after-shutdown/shutdown-during-leave" {
+					only = false
+				}
+			}
+			if !only {
+				return
+			}
+		}
+	}
+	return
+}
+
 func TestC34(t *testing.T) {
 	r := evid.Start(t, "C34", "exploration")
+	if os.Getenv("VERIF_PHASE") == "plain" {
+		r.Cases("tight", r.N(32, 800), 4, func(ci int, rng *rand.Rand) {
+			viols, stats := c34Tight(rng, ci)
+			r.Eval(1)
+			for k, v := range stats {
+				r.Count(k, v)
+			}
+			for _, v := range viols {
+				r.Violation(v[0], ci, v[1], v[1])
+			}
+		})
+		r.Finish("tight phase (plain build, real time): fresh node per trial, four Shutdown calls or Leave against Shutdown released by a spin barrier with sub-microsecond skew, two pollers reading State()", 0)
+		return
+	}
 	n := r.N(500, 15000)
 	instants := []time.Duration{0, 0, 0, time.Millisecond, 500 * time.Millisecond, 2 * time.Second, 4999 * time.Millisecond, 5 * time.Second, 5001 * time.Millisecond, 5900 * time.Millisecond, 6 * time.Second, 6001 * time.Millisecond, 9 * time.Second}
 
